@@ -210,6 +210,9 @@ class ZeroLinearOperator(LinearOperator):
         if self.size(-1) != other.size(tensor_size_ind):
             raise RuntimeError("Size mismatch, self: {}, other: {}".format(self.size(), other.size()))
         output_shape = _matmul_broadcast_shape(self.shape, other.shape)
+        if torch.is_tensor(other):
+            # operator @ tensor is a tensor for every LinearOperator
+            return torch.zeros(*output_shape, dtype=other.dtype, device=other.device)
         return ZeroLinearOperator(*output_shape, dtype=other.dtype, device=other.device)
 
     def mul(
